@@ -577,7 +577,7 @@ def sol_objno(sol):
 #   names: value of cvt:names (None = not given);  files: which of .row/.col exist ('full', 'short' = .row ends after the
 #   first objective name, 'norow' = .col only, 'nofiles');  nsol: alternative solutions reported (sol:stub files, each with an
 #   objno line);  solcount: sol:count=1 (nsol suffixes in the final .sol);  optfile: (a, b) -> argv[a:b] go through tech:optionfile
-DEFAULT_EXTRA = {'names': None, 'files': 'full', 'nsol': 0, 'solcount': False, 'optfile': None}
+DEFAULT_EXTRA = {'names': None, 'files': 'full', 'nsol': 0, 'solcount': False, 'optfile': None, 'nostub': False, 'solvec': False}
 
 
 class Case:
@@ -638,9 +638,12 @@ def run_case(exe, wdir, c, suffix=''):
         argv.append('%s=%d' % ('cvt:names' if c.cid % 2 else 'names', x['names']))
     if x['nsol']:
         env['RECSOLVER_NSOL'] = str(x['nsol'])
-        argv.append('sol:stub=' + stub + '_alt')
-        if x['solcount']:
-            argv.append('sol:count=1')
+        if x['solvec']:
+            env['RECSOLVER_NSOL_VECTORS'] = '1'
+        if not x['nostub']:
+            argv.append('sol:stub=' + stub + '_alt')
+        if x['solcount'] or x['nostub']:
+            argv.append('sol:count=1')       # nostub: solutions are counted but no files are written
     if not c.ampl:
         argv = ['wantsol=1'] + argv
     r = recsolver.run(exe, stub, argv, accept='ALL', quadobj=c.quadobj, env=env, timeout=120, ampl_flag=c.ampl)
@@ -795,7 +798,7 @@ def judge(ck, c, r, mline, stats, rng):
     # alternative-solution files (HandleFeasibleSolution): same echo in each of them
     if c.extra['nsol']:
         stats['altsol_files'] = stats.get('altsol_files', 0) + len(r['alt'])
-        if len(r['alt']) != c.extra['nsol']:
+        if len(r['alt']) != (0 if c.extra['nostub'] else c.extra['nsol']):
             ck.add_violation('altsol:count', '%d alternative solutions reported, %d solution files written' % (c.extra['nsol'], len(r['alt'])), rep, found_input=False)
         for a in r['alt']:
             if a != exp_echo:
@@ -872,6 +875,8 @@ def gen_extra(rng, argv, stats):
     if rng.chance(1, 7):
         x['nsol'] = rng.rint(1, 2)
         x['solcount'] = rng.chance(1, 2)
+        x['nostub'] = rng.chance(1, 5)
+        x['solvec'] = rng.chance(1, 2)
     if argv and rng.chance(1, 6):
         a = rng.below(len(argv))
         x['optfile'] = (a, a + 1 + rng.below(len(argv) - a))
@@ -946,6 +951,8 @@ def corpus_cases():
     mk(2, two, [('m', 1)], 'corpus: multiobj')
     mk(2, two, [('m', 1), ('o', 2)], 'corpus: multiobj and objno')
     mk(2, two, [('o', 0)], 'corpus: objno=0')
+    mk(2, two[:6] + ['G2 1', '0 1'], [('o', 1)], 'corpus: G segment with an index beyond the objectives', 'badidx')
+    mk(2, ['O0 0', 'n0', 'O2 1', 'n2.5', 'G0 1', '0 1'], [], 'corpus: O segment with an index beyond the objectives', 'badidx')
     mk(0, [], [], 'corpus: no objective')
     mk(0, [], [('o', 1)], 'corpus: objno=1 of 0')
     mk(1, ['G0 1', '0 1'], [], 'corpus: objective with G segment only (regression for fixed finding C12-echo-noO)', 'dropO')
@@ -965,12 +972,16 @@ OBLIGATION_ORACLE = {
 }
 
 
-def gen_crosscheck(ck, drv, trdir):
+def gen_crosscheck(ck, drv, trdir, cov=False):
     """every generated definition (MpVerif.Gen.ObjFilter, evaluated by drv_c12) against the compiled function
     (harness/h_objfilter.cc, same named inputs) on a grid including the int boundaries"""
     sig = json.load(open(os.path.join(trdir, 'objfilter_sig.json')))
-    hobj = ck.objects([os.path.join(VERIF, 'harness', 'h_objfilter.cc')], flags=('-O1', '-g', '-fno-access-control'), tag='h')
-    hexe = ck.link('h_objfilter', hobj + ck.libmp_objects(flags=('-O1', '-g')))
+    if cov:
+        hobj = ck.objects([os.path.join(VERIF, 'harness', 'h_objfilter.cc')], flags=('-O0', '-g', '--coverage', '-fno-access-control'), tag='h')
+        hexe = ck.link('h_objfilter_cov', hobj + ck.libmp_objects(flags=('-O0', '-g', '--coverage')), flags=['--coverage'])
+    else:
+        hobj = ck.objects([os.path.join(VERIF, 'harness', 'h_objfilter.cc')], flags=('-O1', '-g', '-fno-access-control'), tag='h')
+        hexe = ck.link('h_objfilter', hobj + ck.libmp_objects(flags=('-O1', '-g')))
     K = [-INT_MAX, -5, -1, 0, 1, 2, 3, 4, 6, 8, INT_MAX]           # objno() values (INT_MIN excluded: objno()-1 is UB)
     IDX = [0, 1, 2, 3, 5, 7, INT_MAX]
     NH = [-1, 0, 1, 2, 3, 5, INT_MAX]
@@ -1029,6 +1040,78 @@ def gen_crosscheck(ck, drv, trdir):
 
 # ----------------------------------------------------------------------------- main
 COVERAGE = os.environ.get('VERIF_COVERAGE') == '1'
+
+
+def model_arms(cases):
+    """which `if`/`match` arms of the Lean model functions (Model.lean) the case stream exercises; computed from the
+    case parameters with the same conditions as the model (setOpt, parseOpts, onHeader, resultingNObj, needObj,
+    resultingObjIndex, onSeg, objnoUsed, objRowIdx)"""
+    A = {}
+
+    def hit(k):
+        A[k] = A.get(k, 0) + 1
+    for k in ['setOpt.objno.neg', 'setOpt.objno.ok', 'setOpt.multi.bad', 'setOpt.multi.ok', 'parseOpts.nil', 'parseOpts.error', 'parseOpts.cons-ok',
+              'onHeader.parse-error', 'onHeader.out-of-range', 'onHeader.ok', 'resultingNObj.multi', 'resultingNObj.single k>0,n>0',
+              'resultingNObj.single k>0,n=0', 'resultingNObj.single k=0,n>0', 'resultingNObj.single k=0,n=0',
+              'needObj.multi', 'needObj.single.match', 'needObj.single.nomatch', 'resultingObjIndex.multi', 'resultingObjIndex.single',
+              'onSeg.O.bad-index', 'onSeg.O.kept', 'onSeg.O.skipped', 'onSeg.G.bad-index', 'onSeg.G.kept', 'onSeg.G.skipped', 'onSeg.other',
+              'readSegs.error', 'readSegs.nil', 'objnoUsed.optsRead.objAdded', 'objnoUsed.optsRead.not-added', 'objnoUsed.not-optsRead',
+              'objRowIdx.empty', 'objRowIdx.multi', 'objRowIdx.single', 'onHeader.objAdded.set', 'onHeader.objAdded.unset']:
+        A[k] = 0
+    for c in cases:
+        fv = FileView(c.text)
+        raw, mf, err = -1, False, False
+        hit('parseOpts.nil')
+        for kind, v in c.optlist:
+            if kind == 'o':
+                if v < 0:
+                    hit('setOpt.objno.neg'); err = True
+                else:
+                    hit('setOpt.objno.ok'); raw = v
+            else:
+                if v not in (0, 1):
+                    hit('setOpt.multi.bad'); err = True
+                else:
+                    hit('setOpt.multi.ok'); mf = v == 1
+            if err:
+                hit('parseOpts.error')
+                break
+            hit('parseOpts.cons-ok')
+        if err:
+            hit('onHeader.parse-error')
+            continue
+        k, spec, multi, n = abs(raw), raw >= 0, mf and raw < 0, fv.n
+        if k > n and spec:
+            hit('onHeader.out-of-range')
+            continue
+        hit('onHeader.ok')
+        if multi:
+            hit('resultingNObj.multi'); nobj = n
+        else:
+            hit('resultingNObj.single k%s,n%s' % ('>0' if k > 0 else '=0', '>0' if n > 0 else '=0')); nobj = 1 if (k > 0 and n > 0) else 0
+        hit('onHeader.objAdded.set' if nobj > 0 else 'onHeader.objAdded.unset')
+        bad = False
+        for sg in fv.stream:
+            if sg[0] == 'X':
+                hit('onSeg.other')
+                continue
+            if sg[1] >= n:
+                hit('onSeg.%s.bad-index' % sg[0]); hit('readSegs.error'); bad = True
+                break
+            if multi:
+                hit('needObj.multi'); need = True
+            else:
+                need = k - 1 == sg[1]
+                hit('needObj.single.match' if need else 'needObj.single.nomatch')
+            if need:
+                hit('resultingObjIndex.multi' if multi else 'resultingObjIndex.single')
+            hit('onSeg.%s.%s' % (sg[0], 'kept' if need else 'skipped'))
+        if bad:
+            continue
+        hit('readSegs.nil')
+        hit('objnoUsed.optsRead.objAdded' if nobj > 0 else 'objnoUsed.optsRead.not-added')
+        hit('objRowIdx.empty' if nobj == 0 else 'objRowIdx.multi' if multi else 'objRowIdx.single')
+    return A
 
 
 def build_cov_driver(ck):
@@ -1202,7 +1285,17 @@ def run(ck):
         rep['stream'] = '%s tier, seed %d, %d cases + %d auxiliary runs' % (ck.tier, ck.seed, len(cases), len(extra_runs))
         os.makedirs(os.path.join(VERIF, 'design_notes', 'coverage'), exist_ok=True)
         json.dump(rep, open(os.path.join(VERIF, 'design_notes', 'coverage', 'C12_last.json'), 'w'), indent=1)
-        open(os.path.join(BUILD, 'coverage_report.md'), 'w').write(c12_cov.markdown(rep, rep['stream']))
+        rep['model_arms'] = model_arms(cases)
+        md = c12_cov.markdown(rep, 'driver stream: ' + rep['stream'])
+        # secondary measurement: the grid harness (generated definitions vs compiled functions) added on top
+        if drv and translator_ok:
+            gen_crosscheck(ck, drv, trdir, cov=True)
+            rep2 = c12_cov.report(c12_cov.collect(os.path.join(BUILD, 'obj')), REPO)
+            rep['with_grid_harness'] = {k: rep2[k] for k in ('anchor_line_cov', 'anchor_branch_cov', 'mechanism_line_cov', 'mechanism_branch_cov', 'mechanism_totals')}
+            md += '\n' + c12_cov.markdown(rep2, 'driver stream + grid harness h_objfilter (498 points)')
+        md += '\n### model arms exercised by the stream\n\n| arm | cases |\n|---|---|\n' + '\n'.join('| %s | %d |' % kv for kv in sorted(rep['model_arms'].items())) + '\n'
+        json.dump(rep, open(os.path.join(VERIF, 'design_notes', 'coverage', 'C12_last.json'), 'w'), indent=1)
+        open(os.path.join(BUILD, 'coverage_report.md'), 'w').write(md)
         ck.log('coverage: anchored files line %.1f%% branch %.1f%%; mechanism functions line %.1f%% branch %.1f%% -> design_notes/coverage/C12_last.json, %s' %
                (rep['anchor_line_cov'], rep['anchor_branch_cov'], rep['mechanism_line_cov'], rep['mechanism_branch_cov'], os.path.join(BUILD, 'coverage_report.md')))
     # ---- thorough: a sample of the cases again under ASan/UBSan (slot index of kept segments, C12_index_in_range)
@@ -1247,6 +1340,14 @@ def run(ck):
     ck.cov['generator_histogram'] = {k: stats[k] for k in ('outcome', 'objkind', 'auxcon', 'nobj_hist', 'mutation', 'format', 'k_class', 'multi', 'channel', 'extra', 'expr_ops')}
     ck.cov['generator_histogram']['altsol_files_checked'] = stats.get('altsol_files', 0)
     ck.cov['generator_histogram']['objsuffix_cases_checked'] = stats.get('objsuffix_checked', 0)
+    covf = os.path.join(VERIF, 'design_notes', 'coverage', 'C12_last.json')
+    if os.path.exists(covf):       # measured in the last VERIF_COVERAGE=1 run (not recomputed here)
+        cj = json.load(open(covf))
+        ck.cov['anchor_line_cov'] = cj['anchor_line_cov']
+        ck.cov['anchor_branch_cov'] = cj['anchor_branch_cov']
+        ck.cov['mechanism_line_cov'] = cj['mechanism_line_cov']
+        ck.cov['mechanism_branch_cov'] = cj['mechanism_branch_cov']
+        ck.cov['coverage_measured_on'] = cj.get('stream')
     ck.cov['reduced_file_runs'] = stats['reduced_runs']
     ck.cov['text_vs_binary_pairs'] = stats['text_vs_binary_runs']
     ck.log('histogram: ' + json.dumps(ck.cov['generator_histogram'], sort_keys=True))
